@@ -173,6 +173,10 @@ def emit(p, fname, naming=0):
     if t == "dectree":
         cond = lambda c: "%s > 0" % b if c == "b>0" else "%s > %s" % (a, b)
         L = [expr(p[k], N, pres) for k in ("l1", "l2", "l3", "l4")]
+        if p.get("form") == "glob":
+            return sig + ("\tif %s > 0 {\n\t\tif %s {\n\t\t\tsink = %s\n\t\t} else {\n\t\t\tsink = %s\n\t\t}\n\t} else {\n"
+                          "\t\tif %s {\n\t\t\tsink = %s\n\t\t} else {\n\t\t\tsink = %s\n\t\t}\n\t}\n\treturn sink\n}\n") % (
+                a, cond(p["c2"]), L[0], L[1], cond(p["c3"]), L[2], L[3])
         return sig + ("\tif %s > 0 {\n\t\tif %s {\n\t\t\treturn %s\n\t\t} else {\n\t\t\treturn %s\n\t\t}\n\t} else {\n"
                       "\t\tif %s {\n\t\t\treturn %s\n\t\t} else {\n\t\t\treturn %s\n\t\t}\n\t}\n}\n") % (
             a, cond(p["c2"]), L[0], L[1], cond(p["c3"]), L[2], L[3])
@@ -186,7 +190,7 @@ def emit(p, fname, naming=0):
     raise KeyError(t)
 
 
-HEADER = 'package %s\n\nimport (\n\t"math/bits"\n\t"unicode/utf16"\n\t"unicode/utf8"\n\n\tautil "example.com/minigo/a/util"\n\tbutil "example.com/minigo/b/util"\n)\n\nvar _ = bits.Len8\nvar _ = utf16.RuneLen\nvar _ = utf8.RuneLen\nvar _ = autil.Weight\nvar _ = butil.Weight\n\nfunc clamp(v int) int {\n\tif v < 0 {\n\t\treturn 0\n\t}\n\tif v > 4 {\n\t\treturn 4\n\t}\n\treturn v\n}\n\nvar picks = [5]string{"", "ab", "abc", "abd", "b"}\n\nfunc pick(v int) string { return picks[clamp(v)] }\n\nvar tabs = [5][]int{{}, {1}, {3, -1}, {2, 2, 5}, {0, 4, 1, 7}}\n\nfunc tab(v int) []int { return tabs[clamp(v)] }\n\nfunc b2i(c bool) int {\n\tif c {\n\t\treturn 1\n\t}\n\treturn 0\n}\n\nfunc dm(x, y int) (int, int) { return x + y, x - y }\n\nfunc kind(v any) int {\n\tswitch v.(type) {\n\tcase int32:\n\t\treturn 1\n\tcase int64:\n\t\treturn 2\n\t}\n\treturn 3\n}\n\n'
+HEADER = 'package %s\n\nimport (\n\t"math/bits"\n\t"unicode/utf16"\n\t"unicode/utf8"\n\n\tautil "example.com/minigo/a/util"\n\tbutil "example.com/minigo/b/util"\n)\n\nvar _ = bits.Len8\nvar _ = utf16.RuneLen\nvar _ = utf8.RuneLen\nvar _ = autil.Weight\nvar _ = butil.Weight\n\nvar sink int\n\nfunc clamp(v int) int {\n\tif v < 0 {\n\t\treturn 0\n\t}\n\tif v > 4 {\n\t\treturn 4\n\t}\n\treturn v\n}\n\nvar picks = [5]string{"", "ab", "abc", "abd", "b"}\n\nfunc pick(v int) string { return picks[clamp(v)] }\n\nvar tabs = [5][]int{{}, {1}, {3, -1}, {2, 2, 5}, {0, 4, 1, 7}}\n\nfunc tab(v int) []int { return tabs[clamp(v)] }\n\nfunc b2i(c bool) int {\n\tif c {\n\t\treturn 1\n\t}\n\treturn 0\n}\n\nfunc dm(x, y int) (int, int) { return x + y, x - y }\n\nfunc kind(v any) int {\n\tswitch v.(type) {\n\tcase int32:\n\t\treturn 1\n\tcase int64:\n\t\treturn 2\n\t}\n\treturn 3\n}\n\n'
 
 
 def write_support(root):
